@@ -16,7 +16,7 @@ def space(ctx):
 def explore(ctx, prop: str, with_liveness: bool):
     tot = {"states": 0, "transitions": 0}
     depths, closed_all, samples = [], True, []
-    t_budget = ctx.pick(120, 2400)
+    t_budget = ctx.pick(1200, 2400)
     histories_for_conformance: list = []
     for (cap, depth) in space(ctx):
         cfg = {"capacity": cap, "sizes": SIZES, "age": with_liveness}  # C09 also lets readers grow older than the staleness window
